@@ -2,6 +2,11 @@
 import copy
 import json
 import math
+import os
+import shutil
+import subprocess
+import sys
+import tempfile
 from fractions import Fraction
 
 from qv.core import ilist, rat
@@ -18,7 +23,16 @@ RULE = ('record multisets drawn from pools of groups that differ in exactly one 
         'single-call equivalence with the '
         'model incl. output order; inputs deep-copied and compared after the call (immutability); metamorphic '
         'permutation/partition/nesting/JSON checks on the real merge. wall_time values are dyadic so float sums are '
-        'exact. non-trivial = at least two records share a group')
+        'exact. non-trivial = at least two records share a group. LEGACY FIELD SETS are a class: each of the four '
+        'optional fields (time_steps, measurement_error_probability, n_logical_commutations, custom_totals) is present '
+        'or absent INDEPENDENTLY (all 16 subsets), the present ones with non-default values (pools crossing time_steps '
+        '1/2/3 with measurement_error_probability 0 / = error_probability / other), so that a legacy record shares its '
+        'documented-default group with explicit records. CLI MERGE (`qecsim merge`, in-process click runner plus real '
+        'subprocesses; stdout and -o file): record lists written to files, ARGUMENT LISTS as a class (distinct files, '
+        'the same path repeated 2-4 times, the same file through different spellings ./x, absolute, sub/../x, d//x, '
+        'symbolic and hard links, overlapping-glob style sorted list + sub-list again, many files, empty files); the '
+        'CLI output goes through the same model case as app.merge on the loaded lists, must equal app.merge on the '
+        'loaded lists and is judged directly against the property (grouping, conservation over ALL named files).')
 
 
 def hexs(s):
@@ -122,10 +136,21 @@ def make_pool(rng):
         vals = sorted(set(rng.choice(CLUSTERS)))
         for v in rng.sample(vals, rng.randint(2, len(vals))):
             p = dict(base); p[k] = v; protos.append(p)
+    if rng.random() < 0.35:  # legacy class: time_steps x measurement_error_probability crossed, incl. mep == p
+        pe = rng.choice([base['error_probability'], 0.25, 0.5])
+        cross = [(ts, mep) for ts in (1, 2, 3) for mep in (0.0, pe, 0.0625)]
+        for ts, mep in rng.sample(cross, rng.randint(2, 5)):
+            p = dict(base); p['error_probability'] = pe; p['time_steps'] = ts
+            p['measurement_error_probability'] = mep; protos.append(p)
     shaped = []
     for p in protos:
         shaped.append((p, rng.choice([None, 0, 2, 2, 4]), rng.choice([None, None, 0, 1, 3])))
     return shaped
+
+
+# the newer (optional) fields with their documented defaults
+OPTIONAL = (('time_steps', 1), ('measurement_error_probability', 0.0), ('n_logical_commutations', None),
+            ('custom_totals', None))
 
 
 def make_record(rng, proto, lcl, cvl, allow_legacy=True, zero=False):
@@ -145,11 +170,15 @@ def make_record(rng, proto, lcl, cvl, allow_legacy=True, zero=False):
         r['n_k_d'] = list(r['n_k_d'])
         for k in ('n_logical_commutations', 'custom_totals'):
             if r[k] is not None: r[k] = list(r[k])
-    if allow_legacy:
-        if r['time_steps'] == 1 and r['measurement_error_probability'] == 0 and rng.random() < 0.3:
-            del r['time_steps']; del r['measurement_error_probability']
-        if r.get('n_logical_commutations') is None and r.get('custom_totals') is None and rng.random() < 0.3:
-            del r['n_logical_commutations']; del r['custom_totals']
+    if allow_legacy and rng.random() < 0.5:
+        # legacy field SETS: every optional field absent independently; a field holding its documented default can
+        # always be dropped (same group as the explicit records), a non-default one rarely (the record then moves to
+        # the default's group - the model decides)
+        for k, dflt in OPTIONAL:
+            if rng.random() < 0.5:
+                at_default = r[k] is None if dflt is None else (r[k] == dflt)
+                if at_default or rng.random() < 0.04:
+                    del r[k]
     return r
 
 
@@ -199,8 +228,8 @@ def run(ctx):
             if bad_key:
                 ctx.monitor_fail(bad_key[0], dict(bad_key[1], lists=before))
         line = 'c05 merge ' + ' '.join('|'.join(rec_wire(x) for x in l) if l else '.' for l in lists)
-        keys = [rec_wire(x).split(';')[:8] for x in recs]
-        shared = len({tuple(k[:2] + k[3:]) for k in keys}) < len(keys)
+        keys = [norm_key(x) for x in recs]
+        shared = len(set(keys)) < len(keys)
         ctx.case(line, impl, nontrivial=shared, post=post, meta={'kind': kind})
         ctx.count('kind', kind); ctx.count('n_records', len(recs)); ctx.count('n_lists', len(lists))
         ctx.count('outcome', impl.split()[0])
@@ -227,6 +256,7 @@ def run(ctx):
                 if (r2 is None) != (res is None) or (res is None and i2 != impl) or canon(r2) != c0:
                     ctx.monitor_fail('merge result changes under ' + name,
                                      {'lists': before, 'variant': ls, 'base': impl[:300], 'variant_result': i2[:300]})
+    part_cli(ctx)
     return ctx.finish(RULE, search=search)
 
 
@@ -276,10 +306,19 @@ def parse_rec(w):
 def search(m):
     """direct evaluation of the property on the real merge for the disagreeing input: conservation, grouping,
     order/partition/nesting invariance"""
+    meta = m.get('meta') or {}
+    if meta.get('kind') == 'cli':
+        return cli_judge(meta['spec'])
     toks = m['op'].split()[2:]
     lists = [[parse_rec(w) for w in l.split('|')] if l != '.' else [] for l in toks]
-    flat = [x for l in lists for x in l]
     impl, res = impl_merge(copy.deepcopy(lists))
+    return judge(lists, impl, res)
+
+
+def judge(lists, impl, res):
+    """the property evaluated directly on one merge answer (res: list of groups, or None when merge raised `impl`)
+    for the argument lists `lists`; returns a failure description or None"""
+    flat = [x for l in lists for x in l]
     keyf = lambda r: (r['code'], tuple(r['n_k_d']), r['error_model'], r['decoder'], r['error_probability'],  # noqa
                       r.get('time_steps', 1), r.get('measurement_error_probability', 0.0))
     groups = {}
@@ -312,12 +351,187 @@ def search(m):
         for f in ('n_logical_commutations', 'custom_totals'):
             vs = [r.get(f) for r in rs]
             e = None if vs[0] is None else tuple(sum(c) for c in zip(*vs))
-            if g[f] != e:
+            if (None if g[f] is None else tuple(g[f])) != e:
                 return {'what': 'array totals not conserved: ' + f, 'lists': lists, 'got': g[f], 'expected': e}
         if g['logical_failure_rate'] != g['n_fail'] / g['n_run'] or \
                 g['physical_error_rate'] != g['error_weight_total'] / g['n_k_d'][0] / g['time_steps'] / g['n_run']:
             return {'what': 'rates not recomputed from the sums', 'lists': lists}
     return None
+
+
+# ------------------------------------------------------------------------------------------ `qecsim merge` (CLI)
+# spec (JSON-able): {'files': {name: [records]}, 'links': {name: [kind, target]}, 'dirs': [..], 'args': [path spellings],
+#                    'arg_files': [name of the file each argument denotes], 'out': None | file name, 'proc': bool}
+
+def cli_setup(spec):
+    d = tempfile.mkdtemp(prefix='qv_c05_')
+    for sub in spec.get('dirs', []):
+        os.makedirs(os.path.join(d, sub), exist_ok=True)
+    for name, recs in spec['files'].items():
+        with open(os.path.join(d, name), 'w') as f:
+            json.dump(recs, f)
+    for name, (kind, target) in spec.get('links', {}).items():
+        (os.symlink if kind == 'sym' else os.link)(os.path.join(d, target), os.path.join(d, name))
+    return d
+
+
+def sub_env():
+    env = dict(os.environ)
+    src = os.path.join(os.environ.get('QECSIM_REPO', '/repo'), 'src')
+    env['PYTHONPATH'] = src + (os.pathsep + env['PYTHONPATH'] if env.get('PYTHONPATH') else '')
+    return env
+
+
+def cli_argv(spec, d):
+    args = [a.replace('{ABS}', d).replace('{BASE}', os.path.basename(d)) for a in spec['args']]
+    return ['merge'] + (['-o', spec['out']] if spec.get('out') else []) + args
+
+
+def cli_finish(spec, d, code, exc_name, stdout):
+    """wire form of the CLI answer (same as impl_merge) + parsed groups"""
+    if code == 0 and exc_name is None:
+        try:
+            if spec.get('out'):
+                with open(os.path.join(d, spec['out'])) as f:
+                    res = json.load(f)
+            else:
+                res = json.loads(stdout)
+            return 'ok ' + ('|'.join(group_wire(g) for g in res) if res else '.'), res
+        except Exception as ex:
+            return 'cli-output-unreadable:{}'.format(type(ex).__name__), None
+    return exc_name or 'cli-exit-{}'.format(code), None
+
+
+def cli_eval(spec):
+    """run `qecsim merge` as described by spec: (impl wire, groups or None, loaded argument lists)"""
+    d = cli_setup(spec)
+    try:
+        argv = cli_argv(spec, d)
+        if spec.get('proc'):
+            p = subprocess.run([sys.executable, '-m', 'qecsim'] + argv, cwd=d, env=sub_env(), stdout=subprocess.PIPE,
+                               stderr=subprocess.PIPE, text=True, timeout=300)
+            last = p.stderr.strip().splitlines()[-1:] or ['']
+            exc = None if p.returncode == 0 else (last[0].split(':')[0] if 'Error' in last[0].split(':')[0] else None)
+            impl, res = cli_finish(spec, d, p.returncode, exc, p.stdout)
+        else:
+            import warnings
+            from click.testing import CliRunner
+            with warnings.catch_warnings():
+                warnings.simplefilter('ignore')
+                from qecsim import cli
+            try:
+                runner = CliRunner(mix_stderr=False)
+            except TypeError:  # click >= 8.2
+                runner = CliRunner()
+            old = os.getcwd(); os.chdir(d)
+            try:
+                r = runner.invoke(cli.cli, argv)
+            finally:
+                os.chdir(old)
+            exc = None
+            if r.exception is not None and not isinstance(r.exception, SystemExit):
+                exc = type(r.exception).__name__
+            impl, res = cli_finish(spec, d, r.exit_code, exc, r.stdout)
+        loaded = [json.loads(json.dumps(spec['files'][n])) for n in spec['arg_files']]
+        return impl, res, loaded
+    finally:
+        shutil.rmtree(d, ignore_errors=True)
+
+
+def cli_judge(spec):
+    impl, res, loaded = cli_eval(spec)
+    bad = judge(loaded, impl, res)
+    if bad is None:
+        i2, r2 = impl_merge(copy.deepcopy(loaded))
+        if (impl, json.loads(json.dumps(r2))) != (i2, res):
+            bad = {'what': '`qecsim merge` differs from app.merge on the loaded lists', 'cli': impl[:300],
+                   'api': i2[:300]}
+    if bad:
+        bad = dict(bad); bad.pop('lists', None)
+        bad['what'] = '`qecsim merge` ' + ' '.join(spec['args']) + ': ' + bad['what']
+        bad['cli'] = spec
+    return bad
+
+
+SPELL = ['{n}', './{n}', '{ABS}/{n}', 'sub/../{n}', './/{n}', 'sub/./../{n}', '{ABS}//{n}', '../{BASE}/{n}']
+
+
+def cli_spec(rng, kind, big):
+    """one CLI merge input of argument-list class `kind`"""
+    pool = make_pool(rng)
+    nfiles = {'many': rng.randint(20, 60 if not big else 300)}.get(kind, rng.randint(1, 4))
+    files = {}
+    for i in range(nfiles):
+        recs = []
+        for _ in range(rng.choice([0, 1, 1, 2, 3, 5]) if kind != 'many' else rng.choice([0, 1, 2])):
+            proto, lcl, cvl = rng.choice(pool)
+            recs.append(make_record(rng, proto, lcl, cvl))
+        files['data_{}.json'.format(i)] = json.loads(json.dumps(recs))
+    names = sorted(files)
+    spec = {'files': files, 'links': {}, 'dirs': ['sub'], 'out': rng.choice([None, None, 'merged.json']), 'proc': False}
+    pairs = [(n, n) for n in names]  # (spelling, file)
+    if kind == 'repeat':  # the same path string several times
+        n = rng.choice(names)
+        for _ in range(rng.randint(1, 3)):
+            pairs.insert(rng.randrange(len(pairs) + 1), (n, n))
+    elif kind == 'spellings':  # the same file through different path spellings / links
+        n = rng.choice(names)
+        for j in range(rng.randint(1, 3)):
+            if rng.random() < 0.3:
+                ln = 'link_{}.json'.format(j)
+                spec['links'][ln] = [rng.choice(['sym', 'hard']), n]
+                pairs.insert(rng.randrange(len(pairs) + 1), (ln, n))
+            else:
+                pairs.insert(rng.randrange(len(pairs) + 1), (rng.choice(SPELL[1:]).replace('{n}', n), n))
+    elif kind == 'globs':  # overlapping shell globs: sorted list followed by a sorted sub-list (maybe twice)
+        for _ in range(rng.randint(1, 2)):
+            pairs += [(n, n) for n in names if rng.random() < 0.6] or [(names[0], names[0])]
+    elif kind == 'many':
+        if rng.random() < 0.5:
+            pairs += [(n, n) for n in rng.sample(names, rng.randint(1, 5))]
+        rng.shuffle(pairs)
+    else:  # distinct files, any order
+        rng.shuffle(pairs)
+    spec['args'] = [a for a, _ in pairs]
+    spec['arg_files'] = [n for _, n in pairs]
+    return spec
+
+
+CLI_KINDS = ['repeat', 'repeat', 'spellings', 'spellings', 'globs', 'many', 'distinct']
+
+
+def part_cli(ctx):
+    rng = ctx.rng
+    n_cases = ctx.scale(260, 2500)
+    n_proc = ctx.scale(3, 12)
+    for it in range(n_cases + n_proc):
+        kind = CLI_KINDS[it % len(CLI_KINDS)]
+        spec = cli_spec(rng, kind, big=not ctx.quick() and it % 50 == 0)
+        if it >= n_cases:
+            spec['proc'] = True
+        impl, res, loaded = cli_eval(spec)
+        line = 'c05 merge ' + ' '.join('|'.join(rec_wire(x) for x in l) if l else '.' for l in loaded)
+        keys = [norm_key(x) for l in loaded for x in l]
+        ctx.case(line, impl, nontrivial=len(set(keys)) < len(keys), post=post, meta={'kind': 'cli', 'spec': spec})
+        ctx.count('cli-args', kind + (' (subprocess)' if spec['proc'] else ''))
+        ctx.count('cli-outcome', impl.split()[0]); ctx.count('cli-n-args', min(len(spec['args']), 20))
+        bad = judge(loaded, impl, res)
+        if bad is None:
+            i2, r2 = impl_merge(copy.deepcopy(loaded))
+            ctx.evaluations += 1
+            if (impl, res) != (i2, json.loads(json.dumps(r2))):
+                bad = {'what': '`qecsim merge` differs from app.merge on the loaded lists', 'cli': impl[:300],
+                       'api': i2[:300]}
+        if bad:
+            bad = dict(bad); bad.pop('lists', None)
+            what = '`qecsim merge` ' + ' '.join(spec['args'][:8]) + ': ' + bad.pop('what')
+            ctx.monitor_fail(what, dict(bad, cli=spec))
+
+
+def norm_key(r):
+    """group key of a record as Python equality sees it (legacy defaults applied)"""
+    return (r['code'], tuple(r['n_k_d']), r['error_model'], r['decoder'], r['error_probability'],
+            r.get('time_steps', 1), r.get('measurement_error_probability', 0.0))
 
 
 def replay(ctx, path):
@@ -326,4 +540,8 @@ def replay(ctx, path):
         mm = v.get('first_mismatch')
         if mm:
             r = search(mm); print('replay', mm['op'][:160], '->', r); bad += bool(r)
+        ce = v.get('counterexample') or {}
+        spec = (ce.get('input') or {}).get('cli') if isinstance(ce.get('input'), dict) else None
+        if spec:
+            r = cli_judge(spec); print('replay qecsim merge', spec['args'], '->', r); bad += bool(r)
     return 1 if bad else 0
